@@ -344,3 +344,156 @@ Proof.
   rewrite forallb_forall in R3. apply R3 in Hu. apply negb_true_iff in Hu. apply Z.ltb_ge in Hu.
   unfold sub64 in Hu. rewrite wrap64_small in Hu by lia. exact Hu.
 Qed.
+
+(* ---------------------------------------------------------------- votes with lock times *)
+
+Definition ids (l : list lvote) : list N := map v_id l.
+
+Definition linv (B : Z) (s : vstate) : Prop :=
+  NoDup (ids (vs_votes s)) /\ Forall (fun v => 0 < v_amt v) (vs_votes s) /\
+  vs_used s = locked_sum (vs_votes s) /\ locked_sum (vs_votes s) <= vs_rights s /\ vs_rights s <= B.
+
+(* a stake is non-negative, a new vote carries a fresh id *)
+Definition btx_ok (s : vstate) (t : btx) : bool :=
+  match t with
+  | BStake a => 0 <=? a
+  | BVote id _ _ => negb (existsb (fun v => N.eqb (v_id v) id) (vs_votes s))
+  | _ => true
+  end.
+
+Definition bcost (b : Z * option btx) : Z :=
+  match snd b with Some (BStake a) => a | _ => 0 end.
+
+Fixpoint bops_ok (fee : Z) (s : vstate) (bs : list (Z * option btx)) : bool :=
+  match bs with
+  | [] => true
+  | b :: r => (match snd b with Some t => btx_ok s t | None => true end) && bops_ok fee (bstep fee s b) r
+  end.
+
+Definition bcosts (bs : list (Z * option btx)) : Z := lsum (map bcost bs).
+
+Lemma locked_sum_nonneg : forall l, Forall (fun v => 0 < v_amt v) l -> 0 <= locked_sum l.
+Proof. induction l as [|v l IH]; simpl; intro H; [lia|]. inversion H; subst. specialize (IH H3). lia. Qed.
+
+Lemma locked_sum_partition : forall p l,
+  locked_sum l = locked_sum (filter p l) + locked_sum (filter (fun v => negb (p v)) l).
+Proof. intros p; induction l as [|v l IH]; simpl; [lia|]. destruct (p v); simpl; lia. Qed.
+
+Lemma Forall_filter_local : forall (A : Type) (P : A -> Prop) p l, Forall P l -> Forall P (filter p l).
+Proof.
+  intros A P p; induction l as [|v l IH]; simpl; intro H; [constructor|].
+  inversion H; subst. destruct (p v); auto.
+Qed.
+
+Lemma ids_filter_incl : forall p l x, In x (ids (filter p l)) -> In x (ids l).
+Proof.
+  unfold ids; intros p l x H. apply in_map_iff in H as [v [E Hv]]. apply filter_In in Hv as [Hv _].
+  apply in_map_iff; exists v; auto.
+Qed.
+
+Lemma NoDup_ids_filter : forall p l, NoDup (ids l) -> NoDup (ids (filter p l)).
+Proof.
+  intros p; induction l as [|v l IH]; simpl; intro H; [constructor|].
+  inversion H; subst. destruct (p v); simpl; auto.
+  constructor; auto. intro C. apply H2. eapply ids_filter_incl; eauto.
+Qed.
+
+Lemma fold_sub_exact : forall l u,
+  Forall (fun v => 0 < v_amt v) l -> locked_sum l <= u -> u < B62 ->
+  fold_left (fun u v => sub64 u (v_amt v)) l u = u - locked_sum l.
+Proof.
+  induction l as [|v l IH]; intros u F L Hb; simpl in *; [lia|].
+  inversion F; subst. pose proof (locked_sum_nonneg l H2). unfold B62 in *.
+  unfold sub64 at 2. rewrite wrap64_small by lia. rewrite IH; auto; unfold B62; lia.
+Qed.
+
+Lemma sweep_inv : forall B h marker s, B < B62 -> linv B s -> linv B (sweep h marker s).
+Proof.
+  intros B h marker s Hb [ND [F [U [L R]]]]. unfold linv, sweep; simpl.
+  pose proof (locked_sum_partition (expires h marker) (vs_votes s)) as P.
+  pose proof (locked_sum_nonneg _ (Forall_filter_local _ _ (expires h marker) _ F)) as G.
+  pose proof (locked_sum_nonneg _ (Forall_filter_local _ _ (fun v => negb (expires h marker v)) _ F)) as K.
+  repeat split.
+  - apply NoDup_ids_filter; auto.
+  - apply Forall_filter_local; auto.
+  - rewrite fold_sub_exact; [lia | apply Forall_filter_local; auto | lia | lia].
+  - lia.
+  - lia.
+Qed.
+
+Lemma ids_map_relock : forall id nl l,
+  ids (map (fun v => if N.eqb (v_id v) id then {| v_id := v_id v; v_amt := v_amt v; v_lock := nl |} else v) l) = ids l.
+Proof. unfold ids; induction l as [|v l IH]; simpl; auto. rewrite IH. destruct (N.eqb (v_id v) id); reflexivity. Qed.
+
+Lemma sum_map_relock : forall id nl l,
+  locked_sum (map (fun v => if N.eqb (v_id v) id then {| v_id := v_id v; v_amt := v_amt v; v_lock := nl |} else v) l) = locked_sum l.
+Proof. induction l as [|v l IH]; simpl; auto. rewrite IH. destruct (N.eqb (v_id v) id); reflexivity. Qed.
+
+Lemma Forall_map_relock : forall id nl l, Forall (fun v => 0 < v_amt v) l ->
+  Forall (fun v => 0 < v_amt v)
+    (map (fun v => if N.eqb (v_id v) id then {| v_id := v_id v; v_amt := v_amt v; v_lock := nl |} else v) l).
+Proof.
+  induction l as [|v l IH]; simpl; intro H; constructor; inversion H; subst; auto.
+  destruct (N.eqb (v_id v) id); simpl; auto.
+Qed.
+
+Lemma apply_btx_inv : forall fee h B s t,
+  0 <= fee -> linv B s -> btx_ok s t = true -> B + bcost (h, Some t) < B62 ->
+  linv (B + bcost (h, Some t)) (fst (apply_btx fee h s t)).
+Proof.
+  intros fee h B s t Fe [ND [F [U [L R]]]] OK Hb. pose proof (locked_sum_nonneg _ F) as NN.
+  unfold B62 in *. destruct t as [a|id amt lock|id nl|others value]; unfold bcost in *; simpl in *.
+  - apply Z.leb_le in OK. unfold linv; simpl. unfold add64. rewrite wrap64_small by lia. repeat split; auto; lia.
+  - destruct (vote_check true true (h <? lock) (stake_of s) [amt]) eqn:VC; simpl; [|unfold linv; repeat split; auto; lia].
+    assert (vinv B (stake_of s)) as VI by (unfold vinv, stake_of; simpl; lia).
+    destruct (vote_check_exact B (stake_of s) true (h <? lock) [amt] VI ltac:(unfold B62; lia) VC) as [S P].
+    simpl in S. inversion P; subst. unfold stake_of in S; simpl in S.
+    unfold linv; simpl. unfold add64. rewrite wrap64_small by lia. repeat split; auto; try lia.
+    constructor; auto. intro C. apply negb_true_iff in OK.
+    assert (existsb (fun v => N.eqb (v_id v) id) (vs_votes s) = true) as E.
+    { unfold ids in C. apply in_map_iff in C as [v [E Hv]]. apply existsb_exists. exists v; split; auto. apply N.eqb_eq; auto. }
+    congruence.
+  - destruct (existsb _ (vs_votes s)); simpl; [|unfold linv; repeat split; auto; lia].
+    unfold linv; simpl. rewrite ids_map_relock, sum_map_relock. repeat split; auto; try lia.
+    apply Forall_map_relock; auto.
+  - destruct (retvotes_check fee (stake_of s) others value) eqn:RC; simpl; [|unfold linv; repeat split; auto; lia].
+    unfold retvotes_check in RC. apply andb_true_iff in RC as [R1 R2]. simpl in R2. apply andb_true_iff in R2 as [R2 _].
+    apply negb_true_iff in R1, R2. apply Z.leb_gt in R1. apply Z.ltb_ge in R2.
+    unfold sub64 in R2. rewrite wrap64_small in R2 by lia.
+    unfold linv; simpl. unfold sub64. rewrite wrap64_small by lia. repeat split; auto; lia.
+Qed.
+
+Lemma bstep_inv : forall fee B s b,
+  0 <= fee -> linv B s -> (match snd b with Some t => btx_ok s t | None => true end) = true ->
+  B + bcost b < B62 -> linv (B + bcost b) (bstep fee s b).
+Proof.
+  intros fee B s [h [t|]] Fe I OK Hb; unfold bstep; simpl in *.
+  - assert (0 <= bcost (h, Some t)) as C by (unfold bcost; simpl; destruct t; simpl in *; lia).
+    apply sweep_inv; [lia|]. apply apply_btx_inv; auto.
+  - unfold bcost in *; simpl in *. replace (B + 0) with B by lia. apply sweep_inv; [lia | exact I].
+Qed.
+
+Lemma brun_inv : forall fee bs B s,
+  0 <= fee -> linv B s -> bops_ok fee s bs = true -> B + bcosts bs < B62 ->
+  linv (B + bcosts bs) (brun fee s bs).
+Proof.
+  intros fee; induction bs as [|b r IH]; intros B s Fe I OK Hb; unfold brun, bcosts in *; simpl in *.
+  - replace (B + 0) with B by lia. exact I.
+  - apply andb_true_iff in OK as [O1 O2].
+    assert (0 <= bcost b) as C by (destruct b as [h [[a|? ? ?|? ?|? ?]|]]; unfold bcost; simpl in *; lia).
+    assert (0 <= lsum (map bcost r)) as Hr.
+    { clear - O2. revert O2. generalize (bstep fee s b). induction r as [|b' r IH]; intros s' H; simpl in *; [lia|].
+      apply andb_true_iff in H as [H1 H2]. specialize (IH _ H2).
+      destruct b' as [h [[a|? ? ?|? ?|? ?]|]]; unfold bcost in *; simpl in *; lia. }
+    replace (B + (bcost b + lsum (map bcost r))) with ((B + bcost b) + lsum (map bcost r)) by lia.
+    apply IH; auto; [|lia]. apply bstep_inv; auto; lia.
+Qed.
+
+Lemma used_equals_locked_votes : forall fee bs B s,
+  0 <= fee -> linv B s -> bops_ok fee s bs = true -> B + bcosts bs < B62 ->
+  let s' := brun fee s bs in
+  vs_used s' = locked_sum (vs_votes s') /\ 0 <= vs_used s' <= vs_rights s'.
+Proof.
+  intros fee bs B s Fe I OK Hb s'. destruct (brun_inv fee bs B s Fe I OK Hb) as [_ [F [U [L _]]]].
+  fold s' in F, U, L. pose proof (locked_sum_nonneg _ F). split; auto. lia.
+Qed.
